@@ -99,15 +99,15 @@ MUTANTS = {
     "c13-circ-uq": ("pulsarbat/core.py", "            Q = 2 * LR.real\n            U = 2 * LR.imag\n", "            Q = 2 * LR.imag\n            U = 2 * LR.real\n", ["C13"]),
     "c13-poltype-kept": ("pulsarbat/core.py", '        return type(self).like(self, z, pol_type="circular")', "        return type(self).like(self, z)", ["C13"]),
     "c19-nyq-always1": ("pulsarbat/utils.py", "        h[N // 2] = 2 if N % 2 else 1", "        h[N // 2] = 1", ["C19"]),
-    "c19-slice-plus1": ("pulsarbat/utils.py", "    h[1 : N // 2] = 2", "    h[1 : N // 2 + 1] = 2", ["C19"]),
     "c19-decimate-odd": ("pulsarbat/utils.py", "    dec[axis] = slice(None, None, 2)", "    dec[axis] = slice(1, None, 2)", ["C19"]),
     "c19-dtype-inverted": ("pulsarbat/utils.py", "out_dtype = np.complex64 if z.dtype == np.float32 else np.complex128", "out_dtype = np.complex128 if z.dtype == np.float32 else np.complex64", ["C19"]),
-    "c19-mix-sign": ("pulsarbat/utils.py", "z *= np.exp(-1j * np.pi / 2 * np.arange(N))[tuple(ind)]", "z *= np.exp(+1j * np.pi / 2 * np.arange(N))[tuple(ind)]", ["C19"]),
     "c19-axis0-only": ("pulsarbat/utils.py", "    ind[axis] = slice(None)", "    ind[axis if z.ndim < 3 else 0] = slice(None)", ["C19"]),
 }
 
 # behaviour-preserving edits: no check may fire
 NEUTRAL = {
+    "n-c19-mix-sign": ("pulsarbat/utils.py", "z *= np.exp(-1j * np.pi / 2 * np.arange(N))[tuple(ind)]", "z *= np.exp(+1j * np.pi / 2 * np.arange(N))[tuple(ind)]", ["C19"]),
+    "n-c19-slice-plus1": ("pulsarbat/utils.py", "    h[1 : N // 2] = 2", "    h[1 : N // 2 + 1] = 2", ["C19"]),
     "n-stft-scale-fresh": ("pulsarbat/contrib/misc.py", "    x = x.reshape(out_shape)\n    x /= nperseg\n", "    x = x.reshape(out_shape)\n    x = x / nperseg\n", ["C14", "C20"]),
     "n-array-nodtype": ("pulsarbat/core.py", "        x = np.asanyarray(self.data, dtype=dtype)\n", "        x = np.asanyarray(self.data)\n", ["C17"]),
     "n-dt-mul": ("pulsarbat/core.py", "self.start_time + s.start / self.sample_rate",
